@@ -80,6 +80,16 @@ let model_of (f : string list) : string =
         let ok = enum_ok !st o in
         st := enum_step !st o;
         Printf.sprintf "%d:%s:%s" (if ok then 1 else 0) (zs (enum_size !st)) (zs (e_max !st))) ops)
+  | "Y" :: ops ->
+    let st = ref sh_new in
+    String.concat " " (List.map (fun tok ->
+        let o = match String.split_on_char ':' tok with
+          | ["a"; e; v; idx] -> SAdd (cz e, cz v, cz idx)
+          | ["s"; e; v] -> SShare (cz e, cz v)
+          | ["u"; v; idx] -> SUpdate (cz v, cz idx)
+          | _ -> failwith ("bad shared op " ^ tok) in
+        st := sstep !st o;
+        Printf.sprintf "%s:%s:%s:%s" (zs (se_size (h_a !st))) (zs (se_max (h_a !st))) (zs (se_size (h_b !st))) (zs (se_max (h_b !st)))) ops)
   | ["X"; c; g] -> zs (mux_selector_size (cz c)) ^ " " ^ zs (mux_size (cz c) (cz g))
   | _ -> failwith "unknown case line"
 
